@@ -190,10 +190,23 @@ func Gen(rt *rapid.T) Case {
 						r.Wait = append(r.Wait, fmt.Sprintf("n%d", j))
 					}
 				}
-				if high(rt, 12, "ninvalid") {
-					if hx.Uniform(rt, 2, "ninvkind") == 1 {
+				if high(rt, 16, "ninvalid") {
+					switch hx.Uniform(rt, 4, "ninvkind") {
+					case 1:
 						r.Wait = append(r.Wait, r.Name)
-					} else {
+					case 2:
+						// the name of the task whose body makes this submission: nested names are local,
+						// so among the siblings nobody has it (and if the name were looked up further out,
+						// the nested task and the body that waits for it would wait for each other)
+						r.Wait = append(r.Wait, s.Name)
+					case 3:
+						// the name of another top-level task (finished or running): not a sibling either
+						if len(valid) > 0 {
+							r.Wait = append(r.Wait, valid[hx.Uniform(rt, len(valid), "nouter")])
+						} else {
+							r.Wait = append(r.Wait, s.Name)
+						}
+					default:
 						r.Wait = append(r.Wait, "zz")
 					}
 				}
